@@ -420,20 +420,36 @@ def sql_value(ty, v, rng=None):
     raise AssertionError(ty)
 
 
-def insert_statements(schema, pop, rng=None, named=False, kinds=None, omit_unset=False):
+SHORT_ROWS = [0]
+
+
+def insert_statements(schema, pop, rng=None, named=False, kinds=None, omit_unset=False, short_rows=False):
     '''
     -> list of (kind, index, statement text). With *omit_unset* an unset value
     (None) is expressed the only way the dialect can: a named insert that
     leaves the column out; otherwise it is written as the null value of its type.
     '''
     out = []
+    referential = set((r.src, a) for r in schema.rops for a in r.src_keys)
     for kind, attrs in schema.classes:
         if kinds is not None and kind not in kinds:
             continue
         for n, row in enumerate(pop.rows[kind]):
             use_named = named if rng is None else (named and rng.random() < 0.7)
             has_unset = omit_unset and any(row[a] is None for a, _ in attrs)
-            if (use_named or has_unset) and attrs:
+            nset = len(attrs)
+            while nset and row[attrs[nset - 1][0]] is None:
+                nset -= 1
+            if (short_rows and has_unset and rng is not None and nset and rng.random() < 0.5
+                    and all(row[a] is not None for a, _ in attrs[:nset])
+                    and all((kind, a) in referential for a, _ in attrs[nset:])):
+                # the unset values are the last ones and all referential: a positional insert that stops early
+                # says the same (other attributes left out of a positional insert get the default of their
+                # type - a generated id for one - rather than no value)
+                SHORT_ROWS[0] += 1
+                text = 'INSERT INTO %s VALUES (%s);' % (
+                    kind, ', '.join(sql_value(ty, row[a], rng) for a, ty in attrs[:nset]))
+            elif (use_named or has_unset) and attrs:
                 cols = [(a, ty) for a, ty in attrs if not (omit_unset and row[a] is None)]
                 if rng is not None:
                     rng.shuffle(cols)
